@@ -113,6 +113,21 @@ func (env *Env) footprintOf(c *Contract) (*footprint, error) {
 					continue
 				}
 			}
+			if id != nil && id.Name == "fieldof" && len(x.Args) == 2 {
+				// fieldof(type(T), f): field f of every object of struct type T
+				tl, ok1 := x.Args[0].(*ETypeLit)
+				fn, ok2 := x.Args[1].(*EIdent)
+				if ok1 && ok2 {
+					keys, err := e.fieldKeys(tl.T, fn.Name, env.pkgPath, env.imports)
+					if err != nil {
+						return nil, err
+					}
+					for _, k := range keys {
+						fp.whole[k[0]] = true
+					}
+					continue
+				}
+			}
 			if id != nil && id.Name == "contents" && len(x.Args) == 1 {
 				v, err := env.eval(x.Args[0])
 				if err != nil {
@@ -182,7 +197,9 @@ func verifyFunction(P *Program, db *SpecDB, ti *TypeInfo, fn *ssa.Function, c *C
 			continue
 		}
 		e.emit("; axiom " + ax.Name)
+		lo := len(e.out)
 		e.assert(t)
+		e.axiomLines = append(e.axiomLines, axiomLine{lo: lo, hi: len(e.out), syms: ghostSymbols(t)})
 	}
 	entry := st.clone()
 	fr.entry = entry
@@ -293,6 +310,13 @@ func verifyFunction(P *Program, db *SpecDB, ti *TypeInfo, fn *ssa.Function, c *C
 			e.unsupportedf("no normal return is reachable; ensures clauses would be vacuous")
 		}
 	}
+	// call-site assertions whose call site was not found
+	for _, key := range sortedKeys(c.CallAsserts) {
+		if !c.callSeen[key] {
+			e.unsupportedf("call-site assertion: no call site %s in %s (call removed or renumbered?)", key, fn)
+		}
+	}
+	c.callSeen = nil
 	// panics
 	switch c.PanicMode {
 	case "never":
@@ -418,4 +442,62 @@ func havocCondMemo(st *State, memo map[*State]string) string {
 	}
 	memo[st] = r
 	return r
+}
+
+// axiomLine: the assert lines [lo,hi) of e.out state an axiom about the ghost symbols syms; the axiom is left out of an
+// obligation's script when none of these symbols occurs anywhere else in that script (it then constrains nothing the
+// obligation talks about: leaving it out is sound and complete, and keeps the quantifier load of the solvers small).
+type axiomLine struct {
+	lo, hi int
+	syms   []string
+}
+
+func ghostSymbols(t string) []string {
+	seen := map[string]bool{}
+	var out []string
+	for i := 0; i < len(t); i++ {
+		if t[i] != '|' {
+			continue
+		}
+		j := strings.IndexByte(t[i+1:], '|')
+		if j < 0 {
+			break
+		}
+		name := t[i : i+j+2]
+		i += j + 1
+		if strings.HasPrefix(name, "|G!") || strings.HasPrefix(name, "|ghost!") || strings.HasPrefix(name, "|pure!") {
+			// ghost vars are versioned (G!x@0, G!x@17): the base name identifies the component
+			base := name
+			if k := strings.LastIndex(name, "@"); k > 0 && strings.HasPrefix(name, "|G!") {
+				base = name[:k]
+			}
+			if !seen[base] {
+				seen[base] = true
+				out = append(out, base)
+			}
+		}
+	}
+	return out
+}
+
+// fieldKeys: heap keys (and sorts) of field `name` of struct type te.
+func (e *Enc) fieldKeys(te *TypeExpr, name, pkgPath string, imports map[string]string) ([][2]string, error) {
+	gt, err := e.resolveGoType(te, pkgPath, imports)
+	if err != nil {
+		return nil, err
+	}
+	stt, ok := gt.Underlying().(*types.Struct)
+	if !ok {
+		return nil, fmt.Errorf("fieldof: %s is not a struct type", typeStr(gt))
+	}
+	path, ft, ok := findField(stt, name)
+	if !ok {
+		return nil, fmt.Errorf("fieldof: no field %s in %s", name, typeStr(gt))
+	}
+	var out [][2]string
+	for _, lf := range e.TI.shape(ft) {
+		k, srt := locKeySort(&Loc{Kind: 'F', Key: typeStr(gt), Path: path}, lf)
+		out = append(out, [2]string{k, srt})
+	}
+	return out, nil
 }
